@@ -84,7 +84,10 @@ def run_case(case):
             x2 = t.xyz.copy()
             for i, r in enumerate(t.topology.residues):
                 if skip[i]:
-                    x2[:, [a.index for a in r.atoms]] += 50.0
+                    # (its C and O stay: they are not part of any pattern, but they orient the amide hydrogen of the next residue,
+                    # which the documented hydrogen placement takes from the preceding C=O; that no hydrogen bond involves an
+                    # incomplete residue is checked on the Kabsch-Sander matrix itself in C14)
+                    x2[:, [a.index for a in r.atoms if a.name not in ("C", "O")]] += 50.0
             t2 = md.Trajectory(x2, t.topology)
             full2 = md.compute_dssp(t2, simplified=False)
             for i in range(nres):
